@@ -1,15 +1,10 @@
 RL = "crates/tower-resilience-ratelimiter/src/"
 CRATE = dict(
-    files={"limiter": RL + "limiter.rs"},
+    files={"limiter": RL + "limiter.rs", "limiterv": RL + "limiter.rs"},
     rules=[],
     items={
-        "SlidingCounterState::estimate_wait_time": dict(rules=[
-            # the Duration conversions are std's; only the sign/zero-ness of the f64 argument matters for "positive wait"
-            ("sub", "R14-conv", r"Duration::from_secs_f64\(", "vx_from_secs_f64(", None),
-            ("sub", "R14-conv", r"self\.bucket_duration\.as_secs_f64\(\)", "self.bucket_secs", None),
-            ("sub", "R14-conv", r"Duration::ZERO", "0.0", 1),
-            ("sub", "R14-conv", r"-> Duration", "-> f64", 1),
-        ]),
+        # verbatim copy for the bounded harness: no rewrite at all
+        "limiterv:SlidingCounterState::estimate_wait_time": dict(rules=[]),
     },
     leaf_subs={
         "AimdController::record_failure/decreased": [(r"self\.config\.decrease_factor", "decrease_factor")],
